@@ -75,7 +75,7 @@ func (c *Ctx) decodedTypes() []string {
 	}
 	set := map[string]bool{}
 	allInstrs(f, func(i ssa.Instruction) {
-		if mi, ok := i.(*ssa.MakeInterface); ok {
+		if mi, ok := i.(*ssa.MakeInterface); ok && typeIs(mi.Type(), pkPackets, "Packet") {
 			set[typeStr(mi.X.Type())] = true
 		}
 	})
